@@ -634,6 +634,10 @@ pub fn base_text(w: &Walker, cwd: &str, root_text: &str) -> String {
         Spelling::AbsoluteSlash => format!("{}/", abs()),
         Spelling::AbsoluteSlashDot => format!("{}/.", abs()),
         Spelling::Relative => rel(),
+        Spelling::Empty => {
+            let r = rel();
+            if r == "." { String::new() } else { r }
+        },
         Spelling::RelativeSlash => format!("{}/", rel()),
         Spelling::RelativeSlashDot => format!("{}/.", rel()),
     }
